@@ -47,6 +47,21 @@
 (*   await_cb     AwaitReply invokes the roll-backward callback            *)
 (*   small_chan   token channel of capacity 1 with a non-blocking send     *)
 (*                                                                         *)
+(* Block pipeline (pipe = TRUE: Config.Pipeline set, node-to-client).  The  *)
+(* handler of a RollForward does not call the application: it hands the    *)
+(* block to the pipeline (Submit, which blocks while PCap blocks are in    *)
+(* flight), gives the ready signal and returns.  The pipeline applies the  *)
+(* blocks one at a time in submission order (that is Pipeline.tla's        *)
+(* guarantee, C42-C44; here it is the FIFO pq and the apply process apc).  *)
+(* The handler of a RollBackward first waits until the pipeline has        *)
+(* drained (WaitForDrain: everything submitted has been applied - C43,     *)
+(* DrainSound) and only then calls the roll-backward callback.  Timing     *)
+(* assumption (stated, not checked): the apply callbacks finish within     *)
+(* PipelineDrainTimeout (30 s), so the drain wait never gives up.          *)
+(*   nodrain      the roll-backward callback does not wait for the drain   *)
+(*   drain_queued the drain wait only looks at the blocks queued between   *)
+(*                the stages, not at the one the apply stage is working on *)
+(*                                                                         *)
 (* The module also emits the server histories for the conformance driver   *)
 (* (plans.ndjson) with the callback sequence the specification predicts.   *)
 (***************************************************************************)
@@ -59,7 +74,9 @@ CONSTANTS Limits,    \* configured pipeline limits
           Bug,
           QCap,      \* capacity of the engine's send queue (80 in the code)
           StopFix,   \* FALSE: Stop() as coded; TRUE: Stop() does not wait for room in a full send queue
-          EmitMax    \* emit all histories up to this length (0: none)
+          EmitMax,   \* emit all histories up to this length (0: none)
+          Pipes,     \* subset of BOOLEAN: conversations without / with a block pipeline
+          PCap       \* blocks the pipeline takes before Submit blocks (PrefetchBufferSize, scaled)
 
 Kinds == {"F", "B", "AF", "AB"}
 
@@ -82,9 +99,13 @@ VARIABLES limit,      \* configured limit of this conversation
           left,       \* syncLoop: RequestNext messages of the current batch still to enqueue
           spc,        \* Stop(): idle | lock | done | drain | close | proto | wait | ret
           stopped,    \* Protocol.Stop() happened (stopChan closed)
-          obs         \* the observer
+          obs,        \* the observer
+          pipe,       \* a block pipeline is configured
+          pq,         \* pipeline: blocks submitted, not yet taken by the apply stage (ids, in order)
+          apc         \* pipeline: apply stage idle | cb
 
-vars == <<limit, cpc, busy, life, sendQ, qtrans, cst, wire, sst, owed, nsent, tailed, s2c, hpc, hmsg,
+pvars == <<pipe, pq, apc>>
+vars == <<pipe, pq, apc, limit, cpc, busy, life, sendQ, qtrans, cst, wire, sst, owed, nsent, tailed, s2c, hpc, hmsg,
           ready, chanOpen, lpc, pipelined, left, spc, stopped, obs>>
 
 Eff      == IF limit = 0 THEN Default ELSE limit        \* NewClient
@@ -99,7 +120,8 @@ Init ==
     /\ hpc = "idle" /\ hmsg = [k |-> "", id |-> 0, sig |-> FALSE]
     /\ ready = 0 /\ chanOpen = TRUE /\ lpc = "off" /\ pipelined = 0 /\ left = 0
     /\ spc = "idle" /\ stopped = FALSE
-    /\ obs = ObsNew(limit, Default)
+    /\ pipe \in Pipes /\ pq = <<>> /\ apc = "idle"
+    /\ obs = ObsNew(limit, Default, pipe)
 
 SendNext(m) == CASE m = "RN" -> "CanAwait" [] m = "FI" -> "Intersect" [] m = "DN" -> "Done"
 
@@ -210,7 +232,9 @@ CliRecv ==
                  /\ cst' = "Idle" /\ cpc' = cpc
                  /\ obs' = ObsHandle(obs, IF m.k = "F" THEN 2 ELSE 3)
                  /\ hmsg' = [k |-> m.k, id |-> m.id, sig |-> Bug # "signal_first"]
-                 /\ hpc' = IF Bug = "signal_first" THEN "presig" ELSE "cbstart"
+                 /\ hpc' = IF Bug = "signal_first" THEN "presig"
+                           ELSE IF pipe THEN (IF m.k = "F" THEN "submit" ELSE "drain")
+                           ELSE "cbstart"
     /\ UNCHANGED <<limit, busy, life, sendQ, qtrans, wire, sst, owed, nsent, tailed, ready, chanOpen, lpc,
                    pipelined, left, spc, stopped>>
 
@@ -226,6 +250,38 @@ CbEnd ==
     /\ obs' = ObsCbEnd(obs)
     /\ UNCHANGED <<limit, cpc, busy, life, sendQ, qtrans, cst, wire, sst, owed, nsent, tailed, s2c, hmsg, ready,
                    chanOpen, lpc, pipelined, left, spc, stopped>>
+
+\* block pipeline
+\* handleRollForward: Pipeline.Submit (blocks while the pipeline is full), then the ready signal
+PipeSubmit ==
+    /\ hpc = "submit" /\ Len(pq) + (IF apc = "cb" THEN 1 ELSE 0) < PCap
+    /\ pq' = Append(pq, hmsg.id) /\ hpc' = "cbdone"
+    /\ UNCHANGED <<pipe, apc, limit, cpc, busy, life, sendQ, qtrans, cst, wire, sst, owed, nsent, tailed, s2c, hmsg,
+                   ready, chanOpen, lpc, pipelined, left, spc, stopped, obs>>
+
+\* the pipeline's apply stage: one block at a time, in submission order; ApplyFunc is arbitrarily slow
+ApplyBegin ==
+    /\ apc = "idle" /\ pq # <<>>
+    /\ apc' = "cb" /\ pq' = Tail(pq)
+    /\ obs' = ObsCbBegin(obs, "F", Head(pq), "")
+    /\ UNCHANGED <<pipe, limit, cpc, busy, life, sendQ, qtrans, cst, wire, sst, owed, nsent, tailed, s2c, hpc, hmsg,
+                   ready, chanOpen, lpc, pipelined, left, spc, stopped>>
+
+ApplyEnd ==
+    /\ apc = "cb" /\ apc' = "idle"
+    /\ obs' = ObsCbEnd(obs)
+    /\ UNCHANGED <<pipe, pq, limit, cpc, busy, life, sendQ, qtrans, cst, wire, sst, owed, nsent, tailed, s2c, hpc, hmsg,
+                   ready, chanOpen, lpc, pipelined, left, spc, stopped>>
+
+\* handleRollBackward: WaitForDrain returns when everything submitted has been applied
+Drained == CASE Bug = "nodrain"      -> TRUE
+             [] Bug = "drain_queued" -> pq = <<>>
+             [] OTHER                -> pq = <<>> /\ apc = "idle"
+PipeDrain ==
+    /\ hpc = "drain" /\ Drained
+    /\ hpc' = "cbstart"
+    /\ UNCHANGED <<pipe, pq, apc, limit, cpc, busy, life, sendQ, qtrans, cst, wire, sst, owed, nsent, tailed, s2c, hmsg,
+                   ready, chanOpen, lpc, pipelined, left, spc, stopped, obs>>
 
 \* handler: lifecycleMutex.Lock(); if chan # nil { select { chan <- true | <-DoneChan } }; Unlock()
 SigLock ==
@@ -331,14 +387,16 @@ StopRet ==          \* <-doneChan: the receive loop (and with it any handler) ha
     /\ UNCHANGED <<limit, cpc, busy, life, sendQ, qtrans, cst, wire, sst, owed, nsent, tailed, s2c, hpc, hmsg,
                    ready, chanOpen, lpc, pipelined, left, stopped>>
 
-Progress ==
+ClientProgress ==
     \/ SyncStart \/ SyncFirst \/ SendBatch \/ SendQueued
     \/ SrvRecv \/ SrvAfterDone \/ SrvIntersect \/ (\E k \in Kinds : SrvReply(k)) \/ SrvOwed \/ SrvTail
     \/ CliRecv \/ CbBegin \/ CbEnd \/ SigLock \/ SigSend
     \/ LoopTake \/ LoopExit \/ LoopLocked \/ LoopSend
     \/ StopLock \/ StopSendDone \/ StopDrain \/ StopClose \/ StopProto \/ StopRet
 
-Next == Progress \/ StopBegin
+Progress == (ClientProgress /\ UNCHANGED pvars) \/ PipeSubmit \/ ApplyBegin \/ ApplyEnd \/ PipeDrain
+
+Next == Progress \/ (StopBegin /\ UNCHANGED pvars)
 
 Spec == Init /\ [][Next]_vars /\ WF_vars(Progress)
 
@@ -355,6 +413,17 @@ Counter   == pipelined >= 0 /\ pipelined <= MsgCount
 \* unregisters the protocol while replies to pipelined requests are still due; such a reply makes the
 \* client's muxer fail ("unknown protocol") and tears the connection down (finding F-C21-orphan)
 OrphanFree == stopped => (s2c = <<>> /\ sst \notin {"CanAwait", "MustReply"} /\ (\A i \in 1..Len(wire) : wire[i] # "RN"))
+\* the block pipeline
+\* the observer's view of the pipeline is the pipeline (the queue of blocks handed over and not yet
+\* applied, plus the block whose handler is still in Submit)
+PipeView  == /\ obs.err = "none" =>
+                  /\ [i \in 1..Len(obs.inpipe) |-> obs.inpipe[i].tip] = pq \o (IF hpc = "submit" THEN <<hmsg.id>> ELSE <<>>)
+                  /\ (obs.app = "cb") <=> (apc = "cb")
+             /\ Len(pq) + (IF apc = "cb" THEN 1 ELSE 0) <= PCap
+             /\ ~pipe => (pq = <<>> /\ apc = "idle" /\ hpc \notin {"submit", "drain"})
+\* at the moment the roll-backward callback is called, and while it runs, every block of an earlier
+\* RollForward has been applied (what WaitForDrain is there for: C43 DrainSound seen from the client)
+DrainedAtRollback == (pipe /\ hmsg.k = "B" /\ hpc \in {"cbstart", "cb"}) => (pq = <<>> /\ apc = "idle")
 \* liveness
 StopLive  == (spc # "idle") ~> (spc = "ret")
 Delivered == tailed /\ obs.pend = <<>> /\ obs.cbDone = nsent /\ obs.ncb = nsent
@@ -371,6 +440,9 @@ Hist(n) == UNION {[1..k -> Kinds] : k \in 0..n}
 RECURSIVE Cbs(_)
 Cbs(h) == IF h = <<>> THEN <<>>
           ELSE <<(IF Head(h) \in {"F", "AF"} THEN "F" ELSE "B")>> \o Cbs(Tail(h))
-PlanRow(h) == [hist |-> h, n |-> Len(h), cbs |-> Cbs(h)]
-ASSUME EmitMax = 0 \/ ndJsonSerialize("plans.ndjson", SetToSeq({PlanRow(h) : h \in Hist(EmitMax)}))
+\* before[i]: how many callbacks have returned when callback i is entered - all the earlier ones, also
+\* when the roll-forward callbacks are the applies of a block pipeline (p)
+PlanRow(h, p) == [hist |-> h, n |-> Len(h), cbs |-> Cbs(h), pipe |-> p, before |-> [i \in 1..Len(h) |-> i - 1]]
+ASSUME Pipes \subseteq BOOLEAN /\ PCap \in Nat \ {0}
+ASSUME EmitMax = 0 \/ ndJsonSerialize("plans.ndjson", SetToSeq({PlanRow(h, p) : h \in Hist(EmitMax), p \in Pipes}))
 =============================================================================
